@@ -40,3 +40,22 @@ package storer
 //gvc:  ensures removed: err == nil ==> s.#refs == store(old(s.#refs), strid(n), 0)
 //gvc:  ensures unchanged: err != nil ==> s.#refs == old(s.#refs)
 //gvc:end
+
+// Iterators are modelled by how many times they will yield each name:
+// #count : name id -> number of references with that name still to come.
+//gvc:ghost ReferenceIter.count map
+
+//gvc:func ReferenceStorer.IterReferences
+//gvc:  trusted
+//gvc:  params s
+//gvc:  results it err
+//gvc:  ensures all: err == nil ==> it != nil && forall(k, -0x7fffffffffffffff, 0x7fffffffffffffff, it.#count[k] == ite(s.#refs[k] != 0, 1, 0))
+//gvc:end
+
+// NewMultiReferenceIter concatenates iterators (contract stated for two).
+//gvc:func NewMultiReferenceIter
+//gvc:  trusted
+//gvc:  params iters
+//gvc:  requires two: len(iters) == 2
+//gvc:  ensures concat: result != nil && forall(k, -0x7fffffffffffffff, 0x7fffffffffffffff, result.#count[k] == iters[0].#count[k] + iters[1].#count[k])
+//gvc:end
